@@ -32,6 +32,8 @@ fn dispatch(req: &Value) -> Value {
         "splice" => ops_plan::splice(req),
         "patch_headers" => ops_plan::patch_headers(req),
         "plan_roundtrip" => ops_plan::plan_roundtrip(req),
+        "json_text" => ops_plan::json_text(req),
+        "json_parse" => ops_plan::json_parse(req),
         "diffy" => ops_plan::diffy_roundtrip(req),
         // tree level
         "apply_tree" => ops_tree::apply_tree(req),
